@@ -162,6 +162,7 @@ pub struct Gen<'r> {
     counters: [usize; 11],
     structs: Vec<StructInfo>,
     enums: Vec<EnumInfo>,
+    in_index: bool,
     globals: Vec<Var>,
     /// (identifier, namespace identifier) for entities declared inside namespaces
     ns_marks: Vec<(usize, usize)>,
@@ -205,6 +206,7 @@ impl<'r> Gen<'r> {
             counters: [0; 11],
             structs: Vec::new(),
             enums: Vec::new(),
+            in_index: false,
             globals: Vec::new(),
             ns_marks: Vec::new(),
             funcs: Vec::new(),
@@ -561,7 +563,23 @@ impl<'r> Gen<'r> {
     fn leaf(&mut self, k: Kind, lanes: u8) -> String {
         let reads = self.readable_of(k, lanes);
         if !reads.is_empty() && self.rng.chance(3, 4) {
-            return self.rng.pick(&reads).clone();
+            let path = self.rng.pick(&reads).clone();
+            // now and then the constant subscript becomes a computed one (kept inside the bounds the constant showed):
+            // globals, calls and side effects then sit inside index brackets
+            if !self.in_index && self.rng.chance(1, 5) {
+                if let Some(open) = path.find('[') {
+                    if let Some(close) = path[open..].find(']') {
+                        if let Ok(c) = path[open + 1..open + close].parse::<u32>() {
+                            self.in_index = true;
+                            let e = self.expr(Kind::UInt, 1, 1);
+                            self.in_index = false;
+                            self.feature("computed-subscript");
+                            return format!("{}[(uint)({}) % {}u]{}", &path[..open], e, c + 1, &path[open + close + 1..]);
+                        }
+                    }
+                }
+            }
+            return path;
         }
         if lanes == 1 {
             if k != Kind::Bool && !self.enums.is_empty() && k == Kind::Int && self.rng.chance(1, 10) {
